@@ -11,9 +11,8 @@ def run(tier):
     r.encoded.append(common.src_ref("src/lian/taint/taint_structs.py", "TaintEnv", "TagBitVectorManager"))
     r.encoded.append(common.src_ref("src/lian/common_structs.py", "StateFlowGraph.add_edge", "SFGNode", "SFGEdge"))
     r.assumptions += [
-        "kernel leg only: given a state-flow graph, propagation taints at least the least fixpoint of the documented edge rules "
-        "(docs/en/06.taint/6-2.taint.md section 3); whether the semantic phases build the right graph for a program is the "
-        "program-level leg (Engine T) and is reported separately when present",
+        "kernel leg: given a state-flow graph, propagation taints at least the least fixpoint of the documented edge rules "
+        "(docs/en/06.taint/6-2.taint.md section 3); whether the whole pipeline reports the flows of a program is the program leg",
         "symbol ids and state ids are disjoint", "no custom propagation rules (rule_manager.all_propagations empty)",
     ]
     r.outside += ["implicit flows", "graphs beyond the node bound", "source/sink rule matching (see C11)"]
@@ -33,12 +32,44 @@ def run(tier):
           "check_propagation", slices=tc.template_slices("complete"), pct=400 if tier == "quick" else 1500, ppt=30,
           bounds=tc.TEMPLATE_BOUNDS)
     b.execute()
+    program_leg(r, tier)
     r.add_sample({"graph": "v0 -SYMBOL_IS_USED@1-> stmt0(assign_stmt) -SYMBOL_IS_DEFINED-> v1 -SYMBOL_STATE-> t0", "source": "v0",
                   "rules_taint": {"symbols": [0, 1], "states": [0]}})
     return r
 
 
+TABLES = [("flows", "@taint_flows")]
+WITNESSES = ("t_two_sinks", "t_two_sources")
+
+
+def taint_programs():
+    from vlib import progs
+    F, N = progs.family_taint()
+    strict = [p for p in F if p["name"] not in WITNESSES]
+    wit = [p for p in F if p["name"] in WITNESSES]
+    return strict, wit
+
+
+def program_leg(r, tier):
+    """Engine T: real `main.py run` with a one-rule-per-kind settings directory; the reference interpreter tracks the value
+    produced by source() by identity (through copies, operators, parameters, returns, fields, elements) for all inputs."""
+    from vlib import progs
+    from vlib.checks import tcommon
+    strict, wit = taint_programs()
+    r.assumptions.append("program leg: settings = {entry: %unit_init, source: call source, sink: call sink argument 0}; for all unknown "
+                         "inputs, whenever the identity-tracked source value reaches argument 0 of a sink call, "
+                         "taint/taint_data_flow.json has a flow with those two statement ids")
+    tcommon.drive(r, strict + wit, len(strict), "check_taint", "check_taint_reach",
+                  "program leg: every observed source->sink arrival is a reported flow, for all inputs", "run", TABLES, tier, chunk=4,
+                  settings_files=progs.TAINT_SETTINGS, key="_programs")
+
+
 def replay(rec):
     cex = rec["cex"]
+    if rec["obligation"].startswith("program leg"):
+        from vlib import progs
+        from vlib.checks import tcommon
+        strict, wit = taint_programs()
+        return tcommon.replay_program(rec, "check_taint", "run", TABLES, strict + wit, settings_files=progs.TAINT_SETTINGS)
     out = xrun.replay_native(tc.M, "check_propagation", cex.get("slice", {}), cex["cex"])
     return bool(out.get("violated")), out
